@@ -142,14 +142,39 @@ def check_gpsum(ctx, case):
 
 # ------------------------------------------------------------------------------------------ C: Parzen
 
-def check_parzen(ctx, case):
+def build_parzen(case):
+  """The estimator under test: through the public constructor, or through one of the two endpoint builders
+  (the search builder overwrites the point sets after construction)."""
   from libsigopt.compute.covariance import C4RadialMatern
   from libsigopt.compute.sigopt_parzen_estimator import SigOptParzenEstimator
-  pts = numpy.array(case["pts"], dtype=float)
-  dim = pts.shape[1]
-  cov = C4RadialMatern([1.0] + [0.5] * dim)
-  spe = SigOptParzenEstimator(lower_covariance=cov, greater_covariance=cov, points_sampled_points=pts,
-                              points_sampled_values=numpy.array(case["vals"], dtype=float), gamma=case["gamma"], forget_factor=0.0)
+  how = case.get("via", "constructor")
+  if how == "constructor":
+    pts = numpy.array(case["pts"], dtype=float)
+    dim = pts.shape[1]
+    cov = C4RadialMatern([1.0] + [0.5] * dim)
+    return SigOptParzenEstimator(lower_covariance=cov, greater_covariance=cov, points_sampled_points=pts,
+                                 points_sampled_values=numpy.array(case["vals"], dtype=float), gamma=case["gamma"], forget_factor=0.0), dim
+  spec = case["spec"]
+  params = G.build_params(spec)
+  G.seed_library(spec)
+  view = G.view_class(spec["endpoint"])(params)
+  oh = view.one_hot_points_sampled_points
+  if how == "search_builder":
+    spe = view.form_sigopt_parzen_estimator_for_search(oh, view.points_sampled_for_pf_values[:, 0])
+  else:
+    oh = view.remove_task_info_as_needed(oh)
+    spe = view.form_sigopt_parzen_estimator(oh, view.points_sampled_for_af_values if view.points_sampled_for_af_values.ndim == 1
+                                            else view.points_sampled_for_af_values[:, 0], 0.1)
+  return spe, oh.shape[1]
+
+
+def check_parzen(ctx, case):
+  from libsigopt.compute.sigopt_parzen_estimator import SPEInsufficientDataError
+  try:
+    spe, dim = build_parzen(case)
+  except SPEInsufficientDataError:
+    ctx.count("parzen: insufficient data")
+    return
   base_lower = spe.lower_points.tolist()
   base_greater = spe.greater_points.tolist()
   stashes = []
@@ -157,8 +182,11 @@ def check_parzen(ctx, case):
   cur_lower, cur_greater = [], []
   for i, o in enumerate(case["ops"]):
     if o["op"] == "append":
-      spe.append_lies([numpy.array(l, dtype=float) for l in o["lies"]], lower=o["lower"])
-      (cur_lower if o["lower"] else cur_greater).extend(o["lies"])
+      lies = [l[:dim] + [0.5] * max(0, dim - len(l)) for l in o["lies"]]
+      o = dict(o, lies=lies)
+      case["ops"][i] = o
+      spe.append_lies([numpy.array(l, dtype=float) for l in lies], lower=o["lower"])
+      (cur_lower if o["lower"] else cur_greater).extend(lies)
     elif o["op"] == "clear":
       spe.clear_lies()
       cur_lower, cur_greater = [], []
@@ -170,7 +198,9 @@ def check_parzen(ctx, case):
       cur_lower, cur_greater = list(sl), list(sg)
     lo, gr = spe.lower_points.tolist(), spe.greater_points.tolist()
     if lo != base_lower + cur_lower or gr != base_greater + cur_greater:
-      ctx.violation("C15 Parzen estimator point sets are not base points plus current lies", {"case": case, "step": i, "op": o})
+      ctx.violation(f"C15 Parzen estimator ({case.get('via', 'constructor')}) point sets are not base points plus current lies",
+                    {"case": case, "step": i, "op": o, "lower": [len(lo), len(base_lower), len(cur_lower)],
+                     "greater": [len(gr), len(base_greater), len(cur_greater)]})
       return
     outs.append((lo, gr))
   if ctx.driver is None:
@@ -186,7 +216,7 @@ def check_parzen(ctx, case):
     if ml != lo or mg != gr:
       ctx.disagree(f"Parzen estimator differs from the model at step {i} ({case['ops'][i]['op']})", case)
       return
-  ctx.count("parzen-sequence")
+  ctx.count("parzen-sequence:" + case.get("via", "constructor"))
 
 
 # ------------------------------------------------------------------------------------------ D-F: endpoints
@@ -440,7 +470,16 @@ def gen_case(rng, kind, tier):
         nst += 1
       else:
         ops.append({"op": "recover", "stash": rng.randrange(nst)})
-    return {"kind": "parzen", "pts": pts, "vals": vals, "gamma": rng.choice([0.1, 0.25, 0.5]), "ops": ops}
+    via = rng.choice(["constructor", "constructor", "search_builder", "next_builder"])
+    if via == "constructor":
+      return {"kind": "parzen", "pts": pts, "vals": vals, "gamma": rng.choice([0.1, 0.25, 0.5]), "ops": ops}
+    ep = "spe_search" if via == "search_builder" else "spe_next"
+    spec = G.gen_request(rng, ep, n=rng.choice([14, 20, 30]), tasks=0, layout="search" if ep == "spe_search" else "single",
+                         thresholds=rng.choice([None, None, "all_satisfied"]))
+    for o in ops:   # lies must have the one-hot dimension: pad / cut in check_parzen
+      if o["op"] == "append":
+        o["lies"] = [l + [0.5] * 12 for l in o["lies"]]
+    return {"kind": "parzen", "via": via, "spec": spec, "ops": ops}
   if kind == "loop":
     n = rng.randint(3, 8)
     pts, vals, noise = gen_hist(rng, dim, n)
@@ -451,6 +490,8 @@ def gen_case(rng, kind, tier):
 def check_case(ctx, case):
   k = case["kind"]
   {"gp": check_gp, "gpsum": check_gpsum, "parzen": check_parzen, "endpoint": check_endpoint, "loop": check_loops_direct}[k](ctx, case)
+  if k == "parzen" and "spec" in case:
+    case = dict(case, ops=[dict(o) for o in case["ops"]])
   nontriv = k in ("endpoint", "loop") or sum(1 for o in case["ops"] if o["op"] in ("append", "recover", "clear")) >= 1
   ctx.case(key=case, nontrivial=nontriv, sample=case if k != "endpoint" and ctx.rng.random() < 0.01 else None)
 
